@@ -11,6 +11,7 @@ import (
 	"testing"
 	"unicode"
 
+	"github.com/AdguardTeam/urlfilter"
 	"github.com/AdguardTeam/urlfilter/rules"
 	"pgregory.net/rapid"
 )
@@ -62,6 +63,7 @@ func checkC05(c c05Case, rec *Rec) *Violation {
 		return nil
 	}
 	accepted := map[string]bool{}
+	var engine *urlfilter.NetworkEngine
 	for _, u := range c.Witnesses {
 		ok := status == 0 || re.MatchString(u)
 		if !ok {
@@ -75,6 +77,27 @@ func checkC05(c c05Case, rec *Rec) *Violation {
 				"rule %q: compiled pattern %v accepts %q but the lower-cased string does not contain the shortcut %q", c.Rule, re, u, rule.Shortcut)
 		}
 		src := "http://example.org/"
+		if !c.OtherModifiers && engine == nil && asNetworkLine(c.Rule) {
+			// the same pre-check exists in the shortcut index of the engine
+			st, cleanup, err := buildStorage([]ListSpec{{ID: 1, Text: c.Rule + "\n||filler.example^\n"}})
+			if err != nil {
+				return viol(id, "C05:harness", "storage: %v", err)
+			}
+			defer cleanup()
+			engine = urlfilter.NewNetworkEngine(st)
+		}
+		if engine != nil {
+			found := false
+			for _, r := range engine.MatchAll(rules.NewRequest(u, src, rules.TypeOther)) {
+				if r.Text() == c.Rule {
+					found = true
+				}
+			}
+			if !found {
+				return viol(id, "C05:engine-precheck-rejects-accepted:"+c05Classify(c.Rule),
+					"rule %q: pattern accepts %q but NetworkEngine.MatchAll does not return the rule (shortcut %q)", c.Rule, u, rule.Shortcut)
+			}
+		}
 		if !c.OtherModifiers && !rule.Match(rules.NewRequest(u, src, rules.TypeOther)) {
 			// other conjuncts: the generated rules only carry $domain=example.org / $match-case
 			return viol(id, "C05:match-rejects-accepted:"+c05Classify(c.Rule),
@@ -90,6 +113,14 @@ func checkC05(c c05Case, rec *Rec) *Violation {
 		rec.Label("rule-without-shortcut")
 	}
 	return nil
+}
+
+// asNetworkLine: does the text, read as a list line, give this network rule
+// (and not e.g. a cosmetic rule because it contains a marker)?
+func asNetworkLine(text string) bool {
+	r, err := rules.NewRule(text, 1)
+	nr, ok := r.(*rules.NetworkRule)
+	return err == nil && ok && nr != nil && nr.Text() == text
 }
 
 func genRe(t *rapid.T, depth int) string {
